@@ -15,6 +15,28 @@ import (
 
 type S struct {
 	G *Gen
+	// Wide: the statement being generated multiplies its list lengths (select list, value rows, columns, SET items,
+	// conditions, CTEs ...) so that size-dependent code paths are reached
+	Wide bool
+}
+
+// cnt is s.n for list lengths
+func (s *S) cnt(k int) int {
+	n := s.n(k)
+	if s.Wide {
+		n *= 1 + s.n(7)
+		if n > 24 {
+			n = 24
+		}
+	}
+	return n
+}
+
+func colName(i int) string {
+	if i < 3 {
+		return []string{"a", "b", "c"}[i]
+	}
+	return fmt.Sprintf("c%d", i)
 }
 
 type sv[T any] struct {
@@ -32,6 +54,8 @@ func (s *S) name(pool []string) sv[builder.IdentExp] {
 	str := pool[s.n(len(pool))]
 	if s.chance(s.G.Hostile) {
 		str = hostilePool[s.n(len(hostilePool))]
+	} else if s.chance(NearRate / 3) {
+		str = nearIdents[s.n(len(nearIdents))]
 	}
 	return sv[builder.IdentExp]{qrb.N(str), fmt.Sprintf("qrb.N(%q)", str)}
 }
@@ -98,6 +122,15 @@ func (s *S) base(depth int) sv[builder.ExpBase] {
 
 func (s *S) exps(depth, lo, hi int) sv[[]builder.Exp] {
 	n := lo + s.n(hi-lo+1)
+	if s.Wide && lo != hi {
+		n *= 1 + s.n(7)
+		if n > 24 {
+			n = 24
+		}
+		if depth > 1 {
+			depth = 1
+		}
+	}
 	var vs []builder.Exp
 	var ps []string
 	for i := 0; i < n; i++ {
@@ -154,6 +187,8 @@ func (s *S) exp(depth int) sv[builder.Exp] {
 		t := typePool[s.n(len(typePool))]
 		if s.chance(s.G.Hostile) {
 			t = hostileTypes[s.n(len(hostileTypes))]
+		} else if s.chance(NearRate) {
+			t = nearTypes[s.n(len(nearTypes))]
 		}
 		return sv[builder.Exp]{l.V.Cast(t), fmt.Sprintf("%s.Cast(%q)", l.P, t)}
 	case 7:
@@ -194,7 +229,7 @@ func (s *S) exp(depth int) sv[builder.Exp] {
 			cb = qrb.Case(e.V)
 			p = "qrb.Case(" + e.P + ")"
 		}
-		for i, k := 0, 1+s.n(2); i < k; i++ {
+		for i, k := 0, 1+s.cnt(2); i < k; i++ {
 			c, r := s.exp(depth-1), s.exp(depth-1)
 			cb = cb.When(c.V).Then(r.V)
 			p += ".When(" + c.P + ").Then(" + r.P + ")"
@@ -244,7 +279,7 @@ func (s *S) json(depth int) sv[builder.JsonBuildObjectBuilder] {
 		p = "fn.JsonbBuildObject()"
 	}
 	keys := []string{"id", "name", "k'ey", ""}
-	for i, k := 0, s.n(4); i < k; i++ {
+	for i, k := 0, s.cnt(4); i < k; i++ {
 		key := keys[s.n(len(keys))]
 		e := s.exp(depth)
 		j = j.Prop(key, e.V)
@@ -413,7 +448,7 @@ func (s *S) sel(depth int, small bool) sv[builder.SelectBuilder] {
 			}
 		}
 	}
-	for i, k := 0, s.n(3); i < k; i++ {
+	for i, k := 0, s.cnt(3); i < k; i++ {
 		c := s.exp(depth - 1)
 		b, p = b.Where(c.V), p+".Where("+c.P+")"
 	}
@@ -436,7 +471,7 @@ func (s *S) sel(depth int, small bool) sv[builder.SelectBuilder] {
 			}
 			b = gb.SelectBuilder
 		}
-		for i, k := 0, s.n(3); i < k; i++ {
+		for i, k := 0, s.cnt(3); i < k; i++ {
 			c := s.exp(depth - 1)
 			b, p = b.Having(c.V), p+".Having("+c.P+")"
 		}
@@ -460,7 +495,7 @@ func (s *S) sel(depth int, small bool) sv[builder.SelectBuilder] {
 			b, p = b.From(f.V).SelectBuilder, p+".From("+f.P+")"
 		}
 	}
-	for i, k := 0, s.n(3); i < k && (!small || s.chance(0.3)); i++ {
+	for i, k := 0, s.cnt(3); i < k && (!small || s.chance(0.3)); i++ {
 		e := s.exp(depth - 1)
 		ob := b.OrderBy(e.V)
 		p += ".OrderBy(" + e.P + ")"
@@ -521,9 +556,12 @@ func (s *S) ins(depth int) sv[builder.InsertBuilder] {
 	if s.chance(0.2) {
 		b, p = b.As("ins"), p+`.As("ins")`
 	}
-	ncol := 1 + s.n(3)
+	ncol := 1 + s.cnt(3)
 	if s.chance(0.8) {
-		cols := []string{"a", "b", "c"}[:ncol]
+		var cols []string
+		for i := 0; i < ncol; i++ {
+			cols = append(cols, colName(i))
+		}
 		b = b.ColumnNames(cols[0], cols[1:]...)
 		p += fmt.Sprintf(".ColumnNames(%q)", cols)
 	}
@@ -538,13 +576,13 @@ func (s *S) ins(depth int) sv[builder.InsertBuilder] {
 		var parts []string
 		for i := 0; i < ncol; i++ {
 			id := s.argID()
-			k := []string{"a", "b", "c"}[i]
+			k := colName(i)
 			m[k] = s.G.Pool[id]
 			parts = append(parts, fmt.Sprintf("%q: pool[%d]", k, id))
 		}
 		b, p = b.SetMap(m), p+".SetMap(map[string]any{"+strings.Join(parts, ", ")+"})"
 	default:
-		for i, k := 0, 1+s.n(3); i < k; i++ {
+		for i, k := 0, 1+s.cnt(3); i < k; i++ {
 			a := s.exps(depth-1, ncol, ncol)
 			b, p = b.Values(a.V...), p+".Values("+a.P+")"
 		}
@@ -569,12 +607,12 @@ func (s *S) ins(depth int) sv[builder.InsertBuilder] {
 		} else {
 			du := oc.DoUpdate()
 			p += ".DoUpdate()"
-			for i, k := 0, 1+s.n(2); i < k; i++ {
+			for i, k := 0, 1+s.cnt(2); i < k; i++ {
 				e := s.exp(depth - 1)
-				col := []string{"a", "b"}[i]
+				col := colName(i)
 				du, p = du.Set(col, e.V), p+fmt.Sprintf(".Set(%q, %s)", col, e.P)
 			}
-			for i, k := 0, s.n(3); i < k; i++ {
+			for i, k := 0, s.cnt(3); i < k; i++ {
 				w := s.exp(depth - 1)
 				du, p = du.Where(w.V), p+".Where("+w.P+")"
 			}
@@ -612,13 +650,13 @@ func (s *S) upd(depth int, allowWith bool) sv[builder.UpdateBuilder] {
 		b = b.SetMap(map[string]any{"b": s.G.Pool[id1], "a": s.G.Pool[id2]})
 		p += fmt.Sprintf(".SetMap(map[string]any{\"b\": pool[%d], \"a\": pool[%d]})", id1, id2)
 	} else {
-		for i, k := 0, 1+s.n(3); i < k; i++ {
+		for i, k := 0, 1+s.cnt(3); i < k; i++ {
 			e := s.exp(depth - 1)
-			col := []string{"a", "b", "c"}[i]
+			col := colName(i)
 			b, p = b.Set(col, e.V), p+fmt.Sprintf(".Set(%q, %s)", col, e.P)
 		}
 	}
-	for i, k := 0, s.n(3); i < k; i++ {
+	for i, k := 0, s.cnt(3); i < k; i++ {
 		f := s.fromExp(depth - 1)
 		fb := b.From(f.V)
 		p += ".From(" + f.P + ")"
@@ -627,7 +665,7 @@ func (s *S) upd(depth int, allowWith bool) sv[builder.UpdateBuilder] {
 		}
 		b = fb.UpdateBuilder
 	}
-	for i, k := 0, s.n(3); i < k; i++ {
+	for i, k := 0, s.cnt(3); i < k; i++ {
 		c := s.exp(depth - 1)
 		b, p = b.Where(c.V), p+".Where("+c.P+")"
 	}
@@ -657,7 +695,7 @@ func (s *S) del(depth int) sv[builder.DeleteBuilder] {
 	if s.chance(0.2) {
 		b, p = b.As("d"), p+`.As("d")`
 	}
-	for i, k := 0, s.n(3); i < k; i++ {
+	for i, k := 0, s.cnt(3); i < k; i++ {
 		f := s.fromExp(depth - 1)
 		fb := b.Using(f.V)
 		p += ".Using(" + f.P + ")"
@@ -666,7 +704,7 @@ func (s *S) del(depth int) sv[builder.DeleteBuilder] {
 		}
 		b = fb.DeleteBuilder
 	}
-	for i, k := 0, s.n(3); i < k; i++ {
+	for i, k := 0, s.cnt(3); i < k; i++ {
 		c := s.exp(depth - 1)
 		b, p = b.Where(c.V), p+".Where("+c.P+")"
 	}
@@ -685,6 +723,11 @@ func (s *S) del(depth int) sv[builder.DeleteBuilder] {
 
 // Statement returns a random statement (kind: select, insert, update, delete, exp).
 func (s *S) Statement(depth int) (w builder.SQLWriter, prog string, kind string) {
+	s.Wide = s.chance(0.06)
+	defer func() { s.Wide = false }()
+	if s.Wide && depth > 3 {
+		depth = 3
+	}
 	switch s.n(10) {
 	case 0, 1, 2:
 		x := s.sel(depth, false)
